@@ -70,7 +70,7 @@ def prod(
         polynomial([[[q0**3],
                      [q1**3+q0*q1**2]]])
         >>> numpoly.prod(poly, axis=[1, 2])
-        polynomial([[[q0**3*q1**3+q0**4*q1**2]]])
+        polynomial([q0**3*q1**3+q0**4*q1**2])
 
     """
     a = numpoly.aspolynomial(a)
@@ -90,9 +90,12 @@ def prod(
         out = _prod(a, axis=axis)
 
     else:
-        for idx in axis:
+        axes = sorted(idx % a.ndim for idx in axis)
+        for idx in axes:
             a = _prod(a, axis=idx)
             a = a[(slice(None),) * idx + (numpy.newaxis,)]
+        if not keepdims:
+            a = a[tuple(0 if idx in axes else slice(None) for idx in range(a.ndim))]
         out = a
 
     return out
